@@ -16,22 +16,23 @@ EXTENDS Integers, Sequences, FiniteSets, TLC, Json, IOUtils, SequencesExt
 CONSTANT MaxAsmLen
 
 Pool == {"a", "b", "f"}
-GDecl == {"", "var a;", "var b;", "val a = 1;", "val b = a;", "val a = b;", "array a[2];", "array b[a];", "array a[0];", "val f = 2;"}
+GDecl == {"", "var a;", "var b;", "val a = 1;", "val b = a;", "val a = b;", "array a[2];", "array b[a];", "array a[0];", "val f = 2;", "val a = 4294967297;", "val b = #;"}
 ProcDecl == {"", "proc f() is skip", "proc f(val a) is a := a", "func f(val a) is return a", "func f(array b) is return b[0]",
              "proc a() is skip", "func f() is skip", "func f(val a, val a) is return a", "proc f(array a) is a[0] := f", "func b(val x) is return f(x)",
              "func f(val x) is return f(x - 1)", "proc f() is skip\nfunc f(array v) is return 1", "func f(val a) is return a\nproc f() is f(1)",
-             "proc main() is skip", "proc f(val b) is b(1)\nproc b() is skip"}
+             "proc main() is skip", "proc f(val b) is b(1)\nproc b() is skip", "proc f(val a) is a()", "proc f(val x) is val k = 1; k := x + 1",
+             "func f(val x) is val k = x; return k"}
 \* statement shapes; X, Y, Z are name slots
 Shapes == {"X := Y", "X[Y] := Z", "X(Y)", "X := Y(Z)", "X := Y[Z]", "return X", "X()", "X := Y + Z(X, Y)", "{ }", "if X then Y := 1 else skip",
            "while X do Y()", "X := \"\"", "0(X(1) = 2)", "X := -Y", "X(Y[Z])", "X(\"s\", Y)", "X := Y(Z())", "2(X)", "X[Y(Z)] := X[Y(Z)]", "1(X, Y, Z)",
-           "X := (Y = Z) and X", "X(X(X(1)))", "X := 2147483647 + 1", "X := #80000000 - Y", "stop", "X := 'a'", "{ X := 1; return X }", "X := ~(-Y)"}
+           "X := (Y = Z) and X", "X(X(X(1)))", "X := 2147483647 + 1", "X := #80000000 - Y", "stop", "X := 'a'", "{ X := 1; return X }", "X := ~(-Y)", "X := 99999999999999999999", "X := #", "X := Y(4294967296)"}
 \* (an operator with parameters so that TLC does not evaluate the 831,600-element product eagerly)
 XProgramsOver(G, P, S, N) == {[d1 |-> d1, d2 |-> d2, p |-> p, shape |-> s, x |-> x, y |-> y, z |-> z] :
                                 d1 \in G, d2 \in G, p \in P, s \in S, x \in N, y \in N, z \in N}
 XPrograms(unused) == XProgramsOver(GDecl, ProcDecl, Shapes, Pool)
 
 AsmItems == {"a", "b", "LDAC", "DATA 1", "DATA 99999999999999999999", "DATA -2147483649", "LDAC a", "BR b", "LDAM a", "LDBC b", "OPR", "OPR ADD", "OPR LDAC",
-             "7", "-", "LDAC -", "FUNC a", "PROC", "PROC b", "LDAC 4294967296", "BRZ LDAC", "a a", "STAI -0", "# c", "LDAP a", "OPR a", "DATA a", "FUNC LDAC"}
+             "7", "-", "LDAC -", "FUNC a", "PROC", "PROC b", "LDAC 4294967296", "BRZ LDAC", "a a", "STAI -0", "# c", "LDAP a", "OPR a", "DATA a", "FUNC LDAC", "LDAC -2147483648", "LDAM 2147483648", "BR 6442450944", "LDAC 18446744073709551616"}
 AsmPrograms == UNION {[1..n -> AsmItems] : n \in 0..MaxAsmLen}
 
 \* serialisation (one evaluation).  XPrograms is a plain product of its component sets, so the components are
